@@ -69,6 +69,12 @@ MUTANTS = [
     ("C17", "seeded C17k-2: TypeErrors quoting an arity message are replaced", "@patch", "/verif/seeded/C17k-2/patch.diff", None),
     ("C18", "seeded C18k-2: separator lost every 1024 entries", "@patch", "/verif/seeded/C18k-2/patch.diff", None),
     ("C05", "seeded C05k-1: zero canonicalisation drops inner parts of nested entries", "@patch", "/verif/seeded/C05k-1/patch.diff", None),
+    # ---- round 9 / 10 changes that were missed at first try -----------------------------------------------------------
+    ("C05", "seeded C05m-1: absent -= r stores r", "@patch", "/verif/seeded/C05m-1/patch.diff", None),
+    ("C05", "seeded C05n-1: symmetrised Hessian (rounding-dependent, overflows)", "@patch", "/verif/seeded/C05n-1/patch.diff", None),
+    ("C16", "seeded C16m-1: deserialize_in_place skips 'equal' targets", "@patch", "/verif/seeded/C16m-1/patch.diff", None),
+    ("C17", "seeded C17m-1: derivative parts taken out of the returned object", "@patch", "/verif/seeded/C17m-1/patch.diff", None),
+    ("C17", "seeded C17m-2: flush-to-zero while the callable runs", "@patch", "/verif/seeded/C17m-2/patch.diff", None),
     # ---- C17: conformance (fault-free) ---------------------------------------------------------------------
     ("C17", "arcsin forwards to asinh", "src/python_macro.rs", "self.0.asin().into()", "self.0.asinh().into()"),
     ("C17", "reflected subtraction with swapped operands", "src/python_macro.rs", "(-self.0.clone() + lhs).into()", "(self.0.clone() - lhs).into()"),
@@ -108,6 +114,14 @@ CONTROLS = [
     ("C16", "keep-C16p1", "@patch", "/verif/seeded/keep-C16p1/patch.diff", None),
     ("C16", "keep-C16p2", "@patch", "/verif/seeded/keep-C16p2/patch.diff", None),
     ("C16", "keep-C16p3", "@patch", "/verif/seeded/keep-C16p3/patch.diff", None),
+    ("C05", "keep-C05r1", "@patch", "/verif/seeded/keep-C05r1/patch.diff", None),
+    ("C05", "keep-C05r2", "@patch", "/verif/seeded/keep-C05r2/patch.diff", None),
+    ("C16", "keep-C16r1", "@patch", "/verif/seeded/keep-C16r1/patch.diff", None),
+    ("C16", "keep-C16r2", "@patch", "/verif/seeded/keep-C16r2/patch.diff", None),
+    ("C17", "keep-C17r1", "@patch", "/verif/seeded/keep-C17r1/patch.diff", None),
+    ("C17", "keep-C17r2", "@patch", "/verif/seeded/keep-C17r2/patch.diff", None),
+    ("C18", "keep-C18r1", "@patch", "/verif/seeded/keep-C18r1/patch.diff", None),
+    ("C18", "keep-C18r2", "@patch", "/verif/seeded/keep-C18r2/patch.diff", None),
     ("C18", "keep-C18p-1", "@patch", "/verif/seeded/keep-C18p-1/patch.diff", None),
     ("C18", "keep-C18p-2", "@patch", "/verif/seeded/keep-C18p-2/patch.diff", None),
     ("C18", "keep-C18p-3", "@patch", "/verif/seeded/keep-C18p-3/patch.diff", None),
